@@ -163,6 +163,12 @@ func VerifierCase(c *Case) M {
 	case "wrongSize":
 		claims["at_hash"] = halfHash(accessToken, hashFor(alg, true))
 	}
+	switch S(t, "cidclaim") {
+	case "cid":
+		claims["client_id"] = vClientID
+	case "other":
+		claims["client_id"] = "other"
+	}
 	claims["custom_claim"] = M{"k": []any{"v", 1.0}}
 	payload, _ := json.Marshal(claims)
 	token := signJWT(payload, signKey, "rp-trusted")
@@ -184,13 +190,15 @@ func VerifierCase(c *Case) M {
 	opts = append(opts, rp.WithSupportedSigningAlgorithms(alg)) // last: the relying-party path takes the algorithms from discovery instead
 	v := rp.NewIDTokenVerifier(vIssuer, vClientID, staticKeys{trusted.Pub}, opts...)
 	var party rp.RelyingParty
+	var docs docTransport
 	if S(cfg, "via") != "direct" {
 		// the verifier a relying party builds for itself: options handed over with WithVerifierOpts, algorithms taken from discovery
 		jw, _ := json.Marshal(jose.JSONWebKeySet{Keys: []jose.JSONWebKey{{Key: trusted.Pub, KeyID: "rp-trusted", Use: "sig"}}})
 		disc, _ := json.Marshal(M{"issuer": vIssuer, "authorization_endpoint": vIssuer + "/authorize", "token_endpoint": vIssuer + "/token", "jwks_uri": vIssuer + "/keys",
 			"id_token_signing_alg_values_supported": []string{alg}})
 		tokenResp, _ := json.Marshal(M{"access_token": accessToken, "token_type": "Bearer", "expires_in": 3600, "refresh_token": "next-refresh-token", "id_token": token})
-		hc := &http.Client{Transport: docTransport{"/.well-known/openid-configuration": disc, "/keys": jw, "/token": tokenResp}}
+		docs = docTransport{"/.well-known/openid-configuration": disc, "/keys": jw, "/token": tokenResp}
+		hc := &http.Client{Transport: docs}
 		var err error
 		party, err = rp.NewRelyingPartyOIDC(context.Background(), vIssuer, vClientID, "", "https://rp.example.test/cb", []string{"openid"},
 			rp.WithHTTPClient(hc), rp.WithVerifierOpts(opts[:len(opts)-1]...), rp.WithSigningAlgsFromDiscovery())
@@ -203,6 +211,30 @@ func VerifierCase(c *Case) M {
 	o := M{"v": "reject", "claimsOK": true}
 	var got *oidc.IDTokenClaims
 	var err error
+	if S(cfg, "prior") == "sameIDT" {
+		// the same ID token has just been verified by the same verifier / relying party, next to the access token its at_hash names
+		priorAT := accessToken
+		if S(t, "athash") == "ofOther" {
+			priorAT = otherAccessToken
+		}
+		if pp := CatchPanic(func() {
+			switch S(cfg, "via") {
+			case "rpRefresh", "rpExchange":
+				observed := docs["/token"]
+				docs["/token"], _ = json.Marshal(M{"access_token": priorAT, "token_type": "Bearer", "expires_in": 3600, "refresh_token": "next-refresh-token", "id_token": token})
+				if S(cfg, "via") == "rpRefresh" {
+					rp.RefreshTokens[*oidc.IDTokenClaims](context.Background(), party, "refresh-token-0", "", "")
+				} else {
+					rp.CodeExchange[*oidc.IDTokenClaims](context.Background(), "code-0", party)
+				}
+				docs["/token"] = observed
+			default:
+				rp.VerifyTokens[*oidc.IDTokenClaims](context.Background(), priorAT, token, v)
+			}
+		}); pp != "" {
+			return M{"v": "panic", "claimsOK": true, "detail": "prior call: " + pp}
+		}
+	}
 	p := CatchPanic(func() {
 		switch S(cfg, "via") {
 		case "rpRefresh":
